@@ -5,6 +5,8 @@ package vcontext
 
 import (
 	"context"
+	gosync "sync"
+	"time"
 
 	"verif/vrt"
 )
@@ -50,4 +52,77 @@ func WithCancelCause(p Context) (Context, CancelCauseFunc) {
 		}
 		cancel(err)
 	}
+}
+
+// AfterFunc: the waiting goroutine is a managed one (it wakes when ctx is done or stop is
+// called), f runs on it like context.AfterFunc runs f in its own goroutine.
+func AfterFunc(ctx Context, f func()) (stop func() bool) {
+	if !vrt.Active() {
+		return context.AfterFunc(ctx, f)
+	}
+	stopCh := make(chan struct{})
+	var mu gosync.Mutex // never held across a scheduling point
+	state := 0          // 0 pending, 1 started, 2 stopped
+	vrt.Go("context.AfterFunc", func() {
+		if vrt.Select(false, vrt.RecvCase(ctx.Done()), vrt.RecvCase(stopCh)) != 0 {
+			return
+		}
+		mu.Lock()
+		run := state == 0
+		if run {
+			state = 1
+		}
+		mu.Unlock()
+		if run {
+			f()
+		}
+	})
+	return func() bool {
+		mu.Lock()
+		if state != 0 {
+			mu.Unlock()
+			return false
+		}
+		state = 2
+		mu.Unlock()
+		vrt.Close(stopCh)
+		return true
+	}
+}
+
+// Deadlines: under the controlled scheduler real time does not pass, so a context deadline
+// never expires by itself within an execution (timeouts that matter to a property are
+// modelled as environment events by the harness); the cancel function is a visible operation.
+func WithDeadline(p Context, d time.Time) (Context, CancelFunc) {
+	if !vrt.Active() {
+		return context.WithDeadline(p, d)
+	}
+	ctx, cancel := context.WithDeadline(p, time.Now().Add(1000*time.Hour))
+	return ctx, func() {
+		if !vrt.Aborting() {
+			vrt.Yield("cancel")
+		}
+		cancel()
+	}
+}
+
+func WithTimeout(p Context, d time.Duration) (Context, CancelFunc) {
+	if !vrt.Active() {
+		return context.WithTimeout(p, d)
+	}
+	return WithDeadline(p, time.Now().Add(d))
+}
+
+func WithDeadlineCause(p Context, d time.Time, cause error) (Context, CancelFunc) {
+	if !vrt.Active() {
+		return context.WithDeadlineCause(p, d, cause)
+	}
+	return WithDeadline(p, d)
+}
+
+func WithTimeoutCause(p Context, d time.Duration, cause error) (Context, CancelFunc) {
+	if !vrt.Active() {
+		return context.WithTimeoutCause(p, d, cause)
+	}
+	return WithDeadline(p, time.Now().Add(d))
 }
